@@ -72,6 +72,22 @@ fn pad_str(n: usize, rng: &mut Rng) -> String {
     (0..n).map(|_| AL[rng.below(AL.len())] as char).collect()
 }
 
+/// like `pad_str`, but one time in five with a few characters that the serializer must escape or that are not ASCII
+/// (U+0000 - the frame terminator's own value -, other control characters, quote, backslash, multi-byte text)
+fn text_str(n: usize, rng: &mut Rng) -> String {
+    let s = pad_str(n, rng);
+    if n > 800 || !rng.chance(1, 5) {
+        return s;
+    }
+    let mut cs: Vec<char> = s.chars().collect();
+    for _ in 0..rng.range(1, 3) {
+        let c = *rng.pick(&['\0', '\u{1f}', '"', '\\', '\n', '\u{e9}', '\u{2028}', '\u{1f600}', '\u{7f}']);
+        let at = rng.below(cs.len() + 1);
+        cs.insert(at, c);
+    }
+    cs.into_iter().collect()
+}
+
 impl Msg {
     /// Reference encoding (serde_json) or the bytes emitted before the refusal.
     pub fn outcome(&self) -> (bool, Vec<u8>) {
@@ -245,9 +261,9 @@ fn gen_msg(rng: &mut Rng, call_only: bool, maxlen: usize) -> Msg {
     };
     let k = if call_only { rng.below(3) } else { rng.below(10) };
     match k {
-        0 | 1 => Msg::CallA { v: pad_str(n, rng), oneway: rng.chance(1, 4), more: rng.chance(1, 4) },
+        0 | 1 => Msg::CallA { v: text_str(n, rng), oneway: rng.chance(1, 4), more: rng.chance(1, 4) },
         2 => Msg::CallB,
-        3 | 4 => Msg::ReplyP1 { name: pad_str(n, rng), continues: *rng.pick(&[None, Some(true), Some(false)]) },
+        3 | 4 => Msg::ReplyP1 { name: text_str(n, rng), continues: *rng.pick(&[None, Some(true), Some(false)]) },
         5 => Msg::ReplyUnit,
         6 => Msg::ErrorZ { code: rng.below(100000) as i32 - 500 },
         7 => Msg::ErrorY,
